@@ -15,9 +15,14 @@ def theorems():
         names = re.findall(r'^Theorem\s+(\w+)', src, flags=re.M)
         pid = os.path.basename(path)[:-2]
         out.append('* **%s** (%d): %s' % (pid, len(names), ', '.join('`%s`' % n for n in names)))
+    for path in sorted(glob.glob('/verif/coq/gen/*Proof.v')):
+        src = re.sub(r'\(\*.*?\*\)', '', open(path).read(), flags=re.S)
+        names = re.findall(r'^Theorem\s+(\w+)', src, flags=re.M)
+        out.append('* **coq/gen/%s** (%d; about the definition regenerated from /repo on every run, section 1.3): %s'
+                   % (os.path.basename(path), len(names), ', '.join('`%s`' % n for n in names)))
     n_proofs = 0
     n_lines = 0
-    for path in glob.glob('/verif/coq/theories/**/*.v', recursive=True):
+    for path in glob.glob('/verif/coq/theories/**/*.v', recursive=True) + glob.glob('/verif/coq/gen/*.v'):
         s = open(path).read()
         n_proofs += len(re.findall(r'\bQed\.', s))
         n_lines += s.count('\n')
